@@ -67,9 +67,16 @@ func (s *Server) setHandshakeState(remoteAddr *net.UDPAddr, hs *HandshakeState) 
 	s.m.Lock()
 	defer s.m.Unlock()
 	key := AddressHashKey(remoteAddr)
-	_, exists := s.handshakes[key]
-	if exists {
-		return false
+	if old, exists := s.handshakes[key]; exists {
+		// The peer has just proven, with a fresh cookie (or hidden request),
+		// that it is starting over from this address: the new handshake
+		// supersedes the abandoned one. Keeping the old state would make the
+		// server answer with a ServerAuth for a handshake it does not track,
+		// so the retry could never complete before the old attempt timed out.
+		if ss := s.fetchSessionLocked(old.sessionID); ss != nil && ss.handle == nil {
+			s.stopTrackingSessionLocked(old.sessionID)
+		}
+		delete(s.handshakes, key)
 	}
 	s.handshakes[key] = hs
 	hs.remoteAddr = remoteAddr
@@ -80,10 +87,15 @@ func (s *Server) setHandshakeState(remoteAddr *net.UDPAddr, hs *HandshakeState) 
 	// TODO(dadrian)[2023-09-09]: Is there a race condition here? Should we be
 	// selecting over two channels---one that gets a message after the handshake
 	// finishes, and one after a timeout instead?
+	armedFor := hs
 	time.AfterFunc(s.config.HandshakeTimeout, func() {
 		s.m.Lock()
 		defer s.m.Unlock()
 		hs := s.fetchHandshakeStateLocked(remoteAddr)
+		if hs != nil && hs != armedFor {
+			// A newer handshake from this address is pending; it has its own timer.
+			return
+		}
 		if hs != nil {
 			logrus.Errorf("Connection to %s timed out during handshake", remoteAddr)
 			s.stopTrackingHandshakeStateLocked(remoteAddr)
